@@ -42,17 +42,19 @@ Proof.
            end; subst; split; try reflexivity; try (rewrite Nat.eqb_refl; reflexivity).
 Qed.
 
-Lemma cksave_implies_conversions : forall o,
-  wf_obj o = true -> cksave o = true -> save_conversions o = true.
+Lemma cksave_implies_conversions : forall z0_one o,
+  wf_obj o = true -> cksave o = true -> save_conversions z0_one o = true.
 Proof.
-  intros o Hwf Hck. unfold cksave, cksave_gen in Hck.
+  intros z0_one o Hwf Hck. unfold cksave, cksave_gen in Hck.
   repeat (apply andb_true_iff in Hck; destruct Hck as [Hck ?]).
   assert (Ht : o_type o <> PUNDEF) by (intro E; rewrite E in Hck; discriminate Hck).
   unfold wf_obj in Hwf. unfold convertible_check in *. unfold save_conversions.
   rename H into Hconv. rename H0 into Hft.
   rewrite forallb_forall in Hconv.
-  destruct (o_filetype o) eqn:Eft.
-  - (* Touchstone 1: at most one entry, of a Touchstone parameter type *)
+  destruct (ts1_kept o && negb z0_one) eqn:Ek.
+  - (* Touchstone 1 kept, z0[0] != 1: at most one entry, of a Touchstone parameter type *)
+    apply andb_true_iff in Ek. destruct Ek as [Ek _]. unfold ts1_kept in Ek.
+    destruct (o_filetype o) eqn:Eft; try discriminate Ek.
     unfold filetype_checks in Hft. rewrite Eft in Hft.
     repeat (apply andb_true_iff in Hft; destruct Hft as [Hft ?]).
     destruct (eff_format o) as [|e [|e' l']] eqn:El; cbn [length] in Hft; try discriminate Hft.
@@ -65,32 +67,28 @@ Proof.
       destruct (norm_steps (o_type o) (o_rows o) (o_ports o) (resolve (o_type o) e) Hwf Ht Hts
                   (resolve_not_undef _ _ Ht) Hm H2') as [A B].
       cbn [map forallb]. rewrite A, B. reflexivity.
-  - (* Touchstone 2 *)
-    rewrite forallb_forall. intros p Hin. apply in_map_iff in Hin. destruct Hin as (e & <- & Hin).
-    specialize (Hconv e Hin). cbv zeta in Hconv. apply andb_true_iff in Hconv. destruct Hconv as [Hm H2'].
-    cbn [negb orb] in H2'. apply convert_ok_entry; auto using resolve_not_undef.
-  - (* NPD *)
+  - (* every other case: conversions from the object's own data *)
     rewrite forallb_forall. intros p Hin. apply in_map_iff in Hin. destruct Hin as (e & <- & Hin).
     specialize (Hconv e Hin). cbv zeta in Hconv. apply andb_true_iff in Hconv. destruct Hconv as [Hm H2'].
     cbn [negb orb] in H2'. apply convert_ok_entry; auto using resolve_not_undef.
 Qed.
 
-Lemma cksave_iff_save_lemma : forall o, wf_obj o = true -> cksave o = save o.
+Lemma cksave_iff_save_lemma : forall z0_one o, wf_obj o = true -> cksave o = save z0_one o.
 Proof.
-  intros o Hwf. unfold save, save_gen. fold cksave.
+  intros z0_one o Hwf. unfold save, save_gen. fold cksave.
   destruct (cksave o) eqn:E; [|reflexivity].
-  now rewrite (cksave_implies_conversions o Hwf E).
+  now rewrite (cksave_implies_conversions z0_one o Hwf E).
 Qed.
 
 (* before fix D32 the check accepted what the conversion then refused: 3x3 S data, format "Hri", NPD *)
 Definition d32_witness : sobj :=
   Build_sobj PS 3 3 1 false true true NPD false [Build_entry PH RI].
 
-Lemma cksave_d32_refuted : exists o, wf_obj o = true /\ cksave_d32 o = true /\ save_d32 o = false.
-Proof. exists d32_witness. repeat split; reflexivity. Qed.
+Lemma cksave_d32_refuted : exists o, wf_obj o = true /\ cksave_d32 o = true /\ forall z0_one, save_d32 z0_one o = false.
+Proof. exists d32_witness. split; [reflexivity |]. split; [reflexivity |]. intros []; reflexivity. Qed.
 
 Example cksave_example :
   cksave (Build_sobj PZ 2 2 3 false true true TS1 false [Build_entry PUNDEF RI]) = true /\
-  save (Build_sobj PZ 2 2 3 false true true TS1 false [Build_entry PUNDEF RI]) = true /\
+  save false (Build_sobj PZ 2 2 3 false true true TS1 false [Build_entry PUNDEF RI]) = true /\
   cksave d32_witness = false.
 Proof. repeat split; reflexivity. Qed.
